@@ -297,7 +297,7 @@ class kFlowDecompCycles(walkmodel.AbstractWalkModelDiGraph):
 
     def _remove_empty_walks(self, solution):
         """
-        Removes empty walks from the solution. Empty walks are those with 0 or 1 nodes.
+        Removes empty walks from the solution. Empty walks are those without nodes.
 
         Parameters
         ----------
@@ -320,7 +320,8 @@ class kFlowDecompCycles(walkmodel.AbstractWalkModelDiGraph):
         internal_walks = solution.get("_walks_internal", solution["walks"])
         non_empty_internal = []
         for walk, internal_walk, weight in zip(solution["walks"], internal_walks, solution["weights"]):
-            if len(internal_walk) > 1:
+            # A route through a single node (an isolated node, or a node that is both a start and an end) is not empty
+            if len(internal_walk) > 0:
                 non_empty_internal.append(internal_walk)
                 non_empty_walks.append(walk)
                 non_empty_weights.append(weight)
